@@ -448,8 +448,17 @@ func (cmd *Command) merge() int {
 	}
 
 	relevantDiagnostics := mergeRuns(runs)
-	cs := slices.Collect(maps.Values(cmd.analyzers))
+	cs := cmd.sortedAnalyzers()
 	return cmd.printDiagnostics(cs, relevantDiagnostics)
+}
+
+// sortedAnalyzers returns the registered analyzers ordered by name, so that
+// output that lists them (the rules of the SARIF format) does not depend on
+// map iteration order.
+func (cmd *Command) sortedAnalyzers() []*lint.Analyzer {
+	cs := slices.Collect(maps.Values(cmd.analyzers))
+	sort.Slice(cs, func(i, j int) bool { return cs[i].Analyzer.Name < cs[j].Analyzer.Name })
+	return cs
 }
 
 func (cmd *Command) lint() int {
@@ -513,7 +522,7 @@ func (cmd *Command) lint() int {
 	}
 
 	var runs []run
-	cs := slices.Collect(maps.Values(cmd.analyzers))
+	cs := cmd.sortedAnalyzers()
 	opts := options{
 		analyzers: cs,
 		patterns:  cmd.flags.fs.Args(),
